@@ -338,7 +338,7 @@ fn main() {
     let check = Check::new("C03", "exploration");
     check.rule("pattern `A as a -> all B [where f] as b [-> C as c]` with f in {none, v op const, v op a.v (consistent), v op b.v (self-referencing)}; streams A (A)? {B|D|A|C}^0..15 C {B|C|A}^0..4 C with small integer v (up to 14+ B events); caps max_kleene_events in 1..15 / default and max_enumeration_results in 1..2^14 / default. `direct`: SaseEngine::process + hook H2 (B ids of every emitted combination, per run): consistent class -> exactly one match per completion holding all kept B events (first m accepted); self-referencing -> combinations pairwise distinct, each an admissible subset (consecutive members satisfy f) of the kept events, count = min(r, |admissible|), equal to the admissible set when not capped; never more than m B events in a stack. `engine`: same programs as VPL through the real Engine with default caps, multiset of (a_id, last b_id) equals the model. Trailing `all` with a self-referencing filter is only counted (statement does not define it). Non-trivial = self-referencing case with >=3 kept events where some subset is rejected and some accepted, or consistent case keeping >=2 events.");
     check.assume("hook H2 faithfully reports the combination behind each emitted match");
-    check.explore("direct", || strat(true), 6_000, 100_000, run_direct);
-    check.explore("engine", || strat(false), 3_000, 50_000, run_engine);
+    check.explore("direct", || strat(true), 15_000, 150_000, run_direct);
+    check.explore("engine", || strat(false), 6_000, 60_000, run_engine);
     check.finish();
 }
